@@ -1,5 +1,6 @@
 """C05 — serialize then deserialize returns an equal instance; output is pure JSON."""
 import json
+import random
 import re
 from ..suites import serde as S
 from ..suites import extras as X
@@ -16,19 +17,27 @@ RULE = ("classes over the serializable fragment (scalars, Enum by name, Array/Se
         "structures, Optional/AnyOf; 20% with lossy kinds Anything/untyped collections/OneOf/AllOf/NotField), with and "
         "without _ignore_none and additional properties; up to 4 valid instances per class; Serializer -> json.dumps -> "
         "Deserializer -> ==, serialize() vs Serializer, fixpoint; keep_undefined in {True, False, None} x "
-        "ignore_invalid_additional_properties in {True, False}; non-trivial = constraint or nesting; distinct by case hash; "
-        "plus an oracle-only stream (suites/extras.py, no model counterpart): DecimalNumber, Enum by value and by name over "
-        "plain/IntEnum/Flag/str enums with falsy members, DateField/DateTime/DateString/TimeString/EmailAddress/HostName/"
-        "IPV4, each bare / Optional / Array / Deque / Set / Map / Tuple / nested collections / nested class, every leaf x "
-        "wrapper once (directed) and random mixes")
+        "ignore_invalid_additional_properties in {True, False}; directed: every ordered pair of 14 AnyOf options, and every "
+        "distinguishable pair as Optional[Union[A, B]] with None listed last / first / in the middle holding a value of either "
+        "option; non-trivial = constraint or nesting; distinct by case hash; the driver reports for every case whether it lies "
+        "inside the PROVED fragment (proved-fragment tags); plus the extras stream (suites/extras.py): DecimalNumber, Enum by "
+        "value and by name over plain/IntEnum/Flag/str-valued enums with falsy members and JSON-looking values, "
+        "DateField (two formats)/DateTime/DateString/TimeString/EmailAddress/HostName/IPV4, strings whose text is a JSON document, "
+        "each bare / Optional / Optional[Union[X, int]] / Array / Deque / Set / Map / Tuple / nested collections / nested class / "
+        "compact single-field wrapper (own, inherited), every leaf x wrapper once (directed) and random mixes: the cases the Lean "
+        "model of the extension kinds covers (Sem/SerdeX.lean: Decimal, Enum by value, DateField/DateTime, core scalars in every "
+        "wrapper but AnyOf[X, int]) are corresponded with it (suite serdex: instance, document, round trip), the others are "
+        "oracle-only; for all of them the serialized form must equal the documented JSON form written down independently")
 ASSUMPTIONS = [
-    "mapper-free (key-renaming mappers: C07); Enum serialization_by_value, DecimalNumber and date/time fields are not in the Lean model: the statement is executed on them on the real code only (extras stream)",
+    "mapper-free (key-renaming mappers: C07); compact wrappers, DateString/TimeString/HostName/IPV4/EmailAddress leaves and AnyOf[leaf, Integer] over extension leaves are not in the Lean model: the statement is executed on them on the real code only (oracle-only part of the extras stream)",
+    "float(Decimal), strptime and strftime are oracles of the model (tables per case; universally quantified in the theorems); a Decimal that is not a double is in the lossy clause",
     "structures held at untyped positions (Anything, untyped Array/Map) are outside the model",
 ]
 
 
 def cases(rng, tier):
     return [c for c in S.gen_cases(rng, tier, 250 if tier == "quick" else 3500) if c["mode"] == "roundtrip"] \
+        + S.anyof_optional_cases(random.Random("aopt" + str(rng.getstate()[1][0])), 60 if tier == "quick" else None) \
         + X.directed_cases() + X.gen_cases(rng, 300 if tier == "quick" else 6000)
 
 
@@ -45,12 +54,13 @@ def run_impl(case):
 
 
 def line(case, impl):
-    return None if _x(case) else S.line(case, impl)
+    return X.xline(case, impl) if _x(case) else S.line(case, impl)
 
 
 def tags(case, impl, model):
     if _x(case):
-        return ["stream:extras"] + (["extras:skipped"] if "skip" in impl else ["extras:" + k for k in impl.get("kinds", [])])
+        return ["stream:extras", "extras-model:" + ("line" if impl.get("xline") else "oracle-only")] + \
+            (["proved-fragment(xclass_round_trip_partial):" + str((model.get("out") or {}).get("inFrag"))] if impl.get("xline") else []) + (["extras:skipped"] if "skip" in impl else ["extras:" + k for k in impl.get("kinds", [])])
     return S.tags(case, impl, model)
 
 
@@ -64,7 +74,7 @@ def describe(case, impl, model):
 
 def judge(case, impl, model):
     if _x(case):
-        return None, X.judge(case, impl)
+        return X.xcorrespond(case, impl, model), X.judge(case, impl)
     msg = S.correspondence(case, impl, model)
     fails = []
     if "unbuildable" in impl or "abstraction_mismatch" in impl or "ser" not in impl:
